@@ -1,4 +1,136 @@
 package main
 
-// witnessOverlayFromEnv is filled in by selftest.go
-func witnessOverlayFromEnv() (map[string][]byte, []string, error) { return nil, nil, nil }
+import (
+	"bufio"
+	"fmt"
+	"os"
+	"os/exec"
+	"path/filepath"
+	"sort"
+	"strings"
+)
+
+// Witness self-test (thorough tier).  A witness is a stored patch against /repo that is
+// known to break the property (a seeded change kept under seeded/<id>-*/patch.diff, or
+// the reverse of a repair commit kept under witness/<id>/*.diff).  The patch is applied
+// to copies of the touched files in a temporary directory and handed to the loader as a
+// go/packages overlay: /repo is never modified and nothing is executed.  The rule set
+// of the property must report a violation on the overlaid tree.
+
+const exitWitnessNA = 3
+
+// witnessOverlayFromEnv builds the overlay for VERIF_WITNESS_PATCH (nil if unset).
+func witnessOverlayFromEnv() (map[string][]byte, []string, error) {
+	patch := os.Getenv("VERIF_WITNESS_PATCH")
+	if patch == "" {
+		return nil, nil, nil
+	}
+	files, err := patchFiles(patch)
+	if err != nil || len(files) == 0 {
+		fmt.Fprintln(os.Stderr, "witness: cannot read patch:", patch, err)
+		os.Exit(exitWitnessNA)
+	}
+	tmp, err := os.MkdirTemp("", "skyverif-witness-")
+	if err != nil {
+		return nil, nil, err
+	}
+	defer os.RemoveAll(tmp)
+	for _, f := range files {
+		dst := filepath.Join(tmp, f)
+		os.MkdirAll(filepath.Dir(dst), 0o755)
+		if b, err := os.ReadFile(filepath.Join(repoDir(), f)); err == nil {
+			os.WriteFile(dst, b, 0o644)
+		}
+	}
+	cmd := exec.Command("patch", "-p1", "-s", "-f", "--no-backup-if-mismatch", "-d", tmp, "-i", patch)
+	if out, err := cmd.CombinedOutput(); err != nil {
+		fmt.Fprintf(os.Stderr, "witness: patch does not apply to this tree (%s): %s\n", patch, strings.TrimSpace(string(out)))
+		os.Exit(exitWitnessNA)
+	}
+	overlay := map[string][]byte{}
+	for _, f := range files {
+		b, err := os.ReadFile(filepath.Join(tmp, f))
+		if err != nil {
+			continue
+		}
+		overlay[filepath.Join(repoDir(), f)] = b
+	}
+	return overlay, nil, nil
+}
+
+func patchFiles(patch string) ([]string, error) {
+	fh, err := os.Open(patch)
+	if err != nil {
+		return nil, err
+	}
+	defer fh.Close()
+	seen := map[string]bool{}
+	var out []string
+	sc := bufio.NewScanner(fh)
+	sc.Buffer(make([]byte, 1<<20), 1<<26)
+	for sc.Scan() {
+		l := sc.Text()
+		for _, pre := range []string{"+++ b/", "--- a/", "+++ a/", "--- b/"} {
+			if strings.HasPrefix(l, pre) {
+				f := strings.TrimSpace(strings.TrimPrefix(l, pre))
+				if i := strings.IndexByte(f, '\t'); i >= 0 {
+					f = f[:i]
+				}
+				if !seen[f] && strings.HasSuffix(f, ".go") {
+					seen[f] = true
+					out = append(out, f)
+				}
+			}
+		}
+	}
+	return out, sc.Err()
+}
+
+type WitnessResult struct {
+	Patch  string `json:"patch"`
+	Result string `json:"result"` // fired | silent | not-applicable | no-verdict
+	Detail string `json:"detail,omitempty"`
+}
+
+// runWitnesses re-runs this checker once per stored witness of the property.
+func runWitnesses(id string) []WitnessResult {
+	var patches []string
+	a, _ := filepath.Glob(filepath.Join(verifDir(), "seeded", id+"-*", "patch.diff"))
+	b, _ := filepath.Glob(filepath.Join(verifDir(), "witness", id, "*.diff"))
+	patches = append(append(patches, a...), b...)
+	sort.Strings(patches)
+	var out []WitnessResult
+	for _, p := range patches {
+		cmd := exec.Command(os.Args[0], id, "quick")
+		cmd.Env = append(os.Environ(), "VERIF_WITNESS_PATCH="+p, "VERIF_NO_EVIDENCE=1")
+		o, err := cmd.CombinedOutput()
+		rel, _ := filepath.Rel(verifDir(), p)
+		res := WitnessResult{Patch: rel}
+		code := 0
+		if ee, ok := err.(*exec.ExitError); ok {
+			code = ee.ExitCode()
+		} else if err != nil {
+			code = 2
+		}
+		switch code {
+		case 1:
+			res.Result = "fired"
+			for _, l := range strings.Split(string(o), "\n") {
+				if strings.HasPrefix(strings.TrimSpace(l), "FAILED") {
+					res.Detail = trunc(strings.TrimSpace(l), 240)
+					break
+				}
+			}
+		case 0:
+			res.Result = "silent"
+		case exitWitnessNA:
+			res.Result = "not-applicable"
+			res.Detail = trunc(strings.TrimSpace(string(o)), 200)
+		default:
+			res.Result = "no-verdict"
+			res.Detail = trunc(strings.TrimSpace(string(o)), 200)
+		}
+		out = append(out, res)
+	}
+	return out
+}
